@@ -56,3 +56,15 @@ func cutFiles(harnessDir, repo string) (map[string][]byte, error) {
 	}
 	return out, nil
 }
+
+// pow2 returns k when t is the constant 2^k, else -1.
+func pow2(t *Term) int {
+	if !t.IsConst() || t.val.Sign() <= 0 {
+		return -1
+	}
+	k := t.val.BitLen() - 1
+	if t.val.TrailingZeroBits() != uint(k) {
+		return -1
+	}
+	return k
+}
